@@ -71,6 +71,16 @@ CLAIMED = {
         note="positions satisfying Inv (C10)",
         technique="Coq proof (list equality via bits/filter lemmas) + differential correspondence check",
         ref="DESIGN.md section 6, C17"),
+    "C19": dict(
+        text="Coq theorems over the Gallina transliteration of scoreMoves and MoveList.SortIndex, for ARBITRARY heuristic state "
+             "(PV move, table move, killers, arbitrary history and counter functions): scoring changes only bits 16..31 of every "
+             "move; the SortIndex sweep visits a permutation of the list in non-increasing score order, every partial sweep is a "
+             "prefix of it; composed: for positions satisfying the C10 invariant the visited moves (low 16 bits) are a permutation "
+             "of exactly the generated moves. Ordering never panics when no generated move targets a king (explicit premise, shown "
+             "necessary; follows from Inv + C12). Tied to VerifScoreMoves + SortIndex by differential runs over random heuristic states.",
+        note="move lists up to 255 entries (Go array bound; longest observed 138); no-king-target premise for totality",
+        technique="Coq proof (permutation/sortedness of selection sweep, bit-field preservation) + differential correspondence check",
+        ref="DESIGN.md section 6, C19"),
 }
 
 
